@@ -37,6 +37,14 @@ def nan_cells(kind, shape):
         return [(1, 1)]
     if kind == 'ragged':
         return [(0, 0), (0, 1), (m - 1, n - 1)]
+    if kind == 'left':
+        return [(i, 0) for i in range(m)]
+    if kind == 'right':
+        return [(i, n - 1) for i in range(m)]
+    if kind == 'top':
+        return [(0, j) for j in range(n)]
+    if kind == 'bottom':
+        return [(m - 1, j) for j in range(n)]
     if kind == 'left2':
         return [(i, j) for i in range(m) for j in range(min(2, n - 1))]
     raise ValueError(kind)
@@ -46,6 +54,7 @@ def configs(tier):
     q = tier == 'quick'
     shapes = [(3, 3), (3, 4), (4, 3), (4, 5)] if q else [(3, 3), (3, 4), (4, 3), (4, 5), (5, 5), (5, 6)]
     pats = ['none', 'border', 'interior', 'ragged'] if q else ['none', 'border', 'interior', 'ragged', 'corners', 'left2']
+    onesided = ['left', 'right', 'top', 'bottom']
     out = []
     for shp in shapes:
         for pat in pats:
@@ -55,6 +64,22 @@ def configs(tier):
                 for cache in CACHES:
                     out.append({'name': '%s-%dx%d-%s-%s' % (mut, shp[0], shp[1], pat, cache), 'kind': 'step', 'mut': mut, 'shape': list(shp),
                                 'nan': pat, 'cache': cache})
+    # crop has one code path per side: every one-sided invalid band, on wide, tall and square arrays
+    for shp in [(3, 4), (4, 3), (3, 3)] + ([] if q else [(5, 3), (3, 5), (2, 6)]):
+        for pat in onesided + ['left2']:
+            for cache in ('none', 'xyrt'):
+                out.append({'name': 'crop-%dx%d-%s-%s' % (shp[0], shp[1], pat, cache), 'kind': 'step', 'mut': 'crop', 'shape': list(shp),
+                            'nan': pat, 'cache': cache})
+    # two-step sequences (the second step starts from the state the first one left, caches populated in between)
+    base = ['crop', 'pad_samples', 'latcal', 'recenter', 'strip_latcal', 'mask', 'remove_piston']
+    pairs = [(a, b) for a in base for b in base if a != b]
+    if q:
+        pairs = [(a, b) for (a, b) in pairs if a in ('crop', 'pad_samples', 'latcal', 'recenter') and b in ('crop', 'pad_samples', 'latcal', 'recenter', 'strip_latcal')]
+    for (a, b) in pairs:
+        for shp, pat in (((3, 4), 'border'), ((4, 3), 'left')) if q else (((3, 4), 'border'), ((4, 3), 'left'), ((4, 4), 'ragged'), ((3, 5), 'top')):
+            for between in ('r', 't', 'none'):
+                out.append({'name': 'seq-%s-%s-%dx%d-%s-read_%s' % (a, b, shp[0], shp[1], pat, between), 'kind': 'seq', 'muts': [a, b],
+                            'shape': list(shp), 'nan': pat, 'between': between})
     for nsmp in ((3, 4) if q else (3, 4, 5)):
         out.append({'name': 'stats-%d' % nsmp, 'kind': 'stats', 'n': nsmp})
         out.append({'name': 'stats-ineq-%d' % nsmp, 'kind': 'stats_ineq', 'n': nsmp})
@@ -65,7 +90,7 @@ def configs(tier):
 
 
 def params(cfg):
-    if cfg['kind'] in ('step', 'idem'):
+    if cfg['kind'] in ('step', 'idem', 'seq'):
         return [('dx', {'pos': True}), ('ps', {'pos': True}), ('fillv', {})]
     if cfg['kind'] in ('stats', 'stats_ineq'):
         return [('v%d' % i, {'lo': -3, 'hi': 3}) for i in range(cfg['n'])]
@@ -89,10 +114,13 @@ def populate(ifg, cache):
         ifg.r, ifg.t
 
 
-def check_invariant(H, ifg, tag):
+def check_invariant(H, ifg, tag, order='xyrt'):
     np = H.np
     shp = tuple(np.shape(ifg.data))
-    x, y, r, t = ifg.x, ifg.y, ifg.r, ifg.t
+    got = {}
+    for c in order:
+        got[c] = getattr(ifg, c)
+    x, y, r, t = got['x'], got['y'], got['r'], got['t']
     for nm, arr in (('x', x), ('y', y), ('r', r), ('t', t)):
         H.shape_is('%s: %s has the shape of the data' % (tag, nm), arr, shp)
     if any(tuple(np.shape(a)) != shp for a in (x, y, r, t)):
@@ -189,6 +217,34 @@ def run(cfg, H):
                 H.holds('crop leaves no all-invalid border', bool(rows[0] and rows[-1] and cols[0] and cols[-1]))
         if mut == 'remove_piston' and bool(valid_before.any()):
             H.eq('mean is zero after remove_piston', H.mod('prysm.util').mean(ifg.data), 0)
+    elif k == 'seq':
+        I, ifg, data0 = build(H, cfg)
+        a, b = cfg['muts']
+        ifg.r
+        if H.expect_no_raise('%s raises' % a, lambda: apply_mutator(H, I, ifg, a, data0)) is None:
+            return
+        if cfg['between'] == 'r':
+            ifg.r
+        elif cfg['between'] == 't':
+            ifg.t
+        if H.expect_no_raise('%s raises' % b, lambda: apply_mutator(H, I, ifg, b, data0)) is None:
+            return
+        # read the radius before the angle, and the other way round on a copy of the state
+        import copy
+        other = copy.deepcopy(ifg) if H.mode == 'concrete' else None
+        check_invariant(H, ifg, 'after %s, %s (r read first)' % (a, b), order='rtxy')
+        if other is not None:
+            check_invariant(H, other, 'after %s, %s (t read first)' % (a, b), order='trxy')
+        else:
+            I2, ifg2, d2 = build(H, cfg)
+            ifg2.r
+            apply_mutator(H, I2, ifg2, a, d2)
+            if cfg['between'] == 'r':
+                ifg2.r
+            elif cfg['between'] == 't':
+                ifg2.t
+            apply_mutator(H, I2, ifg2, b, d2)
+            check_invariant(H, ifg2, 'after %s, %s (t read first)' % (a, b), order='trxy')
     elif k == 'idem':
         I, ifg, data0 = build(H, cfg)
         ifg.remove_tiptilt()
